@@ -4,7 +4,7 @@
 // delete heaps while others free into them.  Shadow model: global table of live blocks with owner-independent patterns.
 // FAIL lines: overlap of a returned block with a live block, changed contents of a live block, blocks or pages left
 // behind after everything was freed and collected.
-// usage: t3_stress <seed> <threads> <ops> <mode> <spurious%> <stay%>   mode bits: 1 thread-exit 2 heap-delete 4 huge/aligned mix 8 reclaim
+// usage: t3_stress <seed> <threads> <ops> <mode> <spurious%> <stay%>   mode bits: 1 thread-exit 2 heap-delete 4 huge/aligned mix 8 reclaim-on-free 16 OS segments 32 forced abandonment 64 no reclaim on allocation
 #include "vsched.h"
 #include VERIF_STATIC_C
 static int nfail = 0;
@@ -66,6 +66,9 @@ int main(int argc, char** argv) {
   if (argc > 6) vs_stay_pct = atoi(argv[6]);
   mi_option_set(mi_option_show_errors, 0); mi_option_set(mi_option_verbose, 0);
   if (MODE & 8) { mi_option_set(mi_option_abandoned_reclaim_on_free, 1); }
+  if (MODE & 16) { mi_option_set(mi_option_disallow_arena_alloc, 1); }          // OS-allocated segments: abandoned ones live on the sub-process list
+  if (MODE & 32) { mi_option_set(mi_option_target_segments_per_thread, 1); }    // forced abandonment of owned segments
+  if (MODE & 64) { mi_option_set(mi_option_max_segment_reclaim, 0); }           // only frees adopt (with mode 8)
   void* warm = mi_malloc(8); mi_free(warm);
   vs_init(seed, nth);
   vs_fn bodies[VS_MAXT]; for (int i = 0; i < nth; i++) bodies[i] = body;
@@ -79,7 +82,8 @@ int main(int argc, char** argv) {
   // C08/C09 oracle: nothing is left behind in the surviving heap: no live block, and no abandoned segment waits for adoption
   if (nblocks != 0) FAIL("blocks_left_behind", "%zu blocks reported live in the main heap after all were freed", nblocks);
   size_t abandoned = mi_atomic_load_relaxed(&mi_subproc_default.abandoned_count);
-  if (abandoned != 0) FAIL("abandoned_left_behind", "%zu abandoned segments after everything was freed and collected", abandoned);
+  if (abandoned > ((size_t)1 << 40)) FAIL("abandoned_count_underflow", "abandoned_count = %zu (a segment was adopted twice or un-marked twice)", abandoned);
+  else if (abandoned != 0) FAIL("abandoned_left_behind", "%zu abandoned segments after everything was freed and collected", abandoned);
   printf("STAT points %ld\nSTAT allocs %ld\nSTAT local_frees %ld\nSTAT remote_frees %ld\nSTAT collects %ld\nSTAT thread_exits %ld\nSTAT heap_deletes %ld\nSTAT areas_left %zu\n", vs_points, n_alloc, n_free_local, n_free_remote, n_collect, n_exit, n_heapdel, nareas);
   printf("DONE fails %d\n", nfail);
   return 0;
